@@ -3,7 +3,8 @@ import Infretis.Lemmas.StoreText
 C14, text level: the three files a stored path consists of, read back by the text-level `load_path`.
 -/
 namespace Infretis.StoreText
-open Infretis.Codec hiding Err Line Text
+-- white space: the definitions and lemmas of Model/StoreWs.lean + Lemmas/StoreWs.lean (Python's complete set), not Codec's
+open Infretis.Codec hiding Err Line Text isWs lstrip rstrip strip splitWs NoWs fmtCore_noWs dropWhile_noWs NoBrk_of_noWs splitWs_ws splitWs_blanks splitWs_allWs splitWs_token splitWs_append_ws rstrip_decomp splitWs_rstrip splitWs_lstrip splitWs_strip head_blank head_nil mem_rstrip
 open Infretis.Store (PathObj Fill fill idx0)
 
 /-! ### no line terminators inside the written lines -/
